@@ -101,7 +101,19 @@ pub fn run(args: &[String]) -> i32 {
                                 }
                             }
                             scan(&o.json, line1, &mut in_arrays);
-                            if in_arrays {
+                            // ... unless the line was filed as identifier too (a text line may happen to
+                            // read the same as the identifier line)
+                            fn scalar(v: &Value, want: &[&str], found: &mut bool, in_array: bool) {
+                                match v {
+                                    Value::String(x) => if !in_array && want.contains(&x.as_str()) { *found = true; },
+                                    Value::Array(a) => for x in a { scalar(x, want, found, true); },
+                                    Value::Object(o) => for x in o.values() { scalar(x, want, found, false); },
+                                    _ => {}
+                                }
+                            }
+                            let mut as_identifier = false;
+                            scalar(&o.json, &[line1, &line1[1..]], &mut as_identifier, false);
+                            if in_arrays && !as_identifier {
                                 hit(format!("C05|Field{}|identifier-line-filed-as-text-line|{}", tag, lab), json!({"json": o.json}));
                             }
                         }
